@@ -119,10 +119,21 @@ def gen(rng, n):
                 spec = gen_spec(rng)
             spec["mg"]["mode"] = rng.choice(["full", "limited", "survival"])
             spec["mg"]["battery"] = spec["mg"].get("battery") or {"p": "1", "q": "1", "e": "2", "smin": "1/10", "smax": "1", "eta": "1"}
+            host_f = spec["mg"]["host"][0]
+            if (j // 10) % 2 == 0:
+                # ... next to a unit that produces hardly any active but plenty of reactive power (an inverter), loads without
+                # reactive demand: the island has an active deficit and a reactive surplus
+                fdh = spec["feeders"][host_f]
+                fdh["qload"] = ["0"] * len(fdh["parent"])
+                hb = spec["mg"]["host"][1]
+                fdh["prod"] = {str(hb): {"p": "1/100", "q": str(rng.choice([F(1, 5), F(1, 2)])), "qmax": "1"}}       # on the bus that hosts the microgrid
+                fdh["sw"][hb] = 3                                   # the host's own line can be isolated: host bus and microgrid form an island
+                spec["mg"]["mode"] = "limited"                      # (no start level is drawn: the battery is as empty as it starts)
+                spec["mg"]["battery"] = dict(spec["mg"]["battery"], soc_start="1/10")
+                case["_host_line"] = f"F{host_f}L{hb}"
             case["spec"] = spec
             ps = net.build(dict(spec, exact=False))
-            host_f = spec["mg"]["host"][0]
-            case["faults"] = {str(rng.randint(1, 2)): [["line", rng.choice([f"F{host_f}L0", "ML0"]), "3"]]}
+            case["faults"] = {str(rng.randint(1, 2)): [["line", case.pop("_host_line", None) or rng.choice([f"F{host_f}L0", "ML0"]), "3"]]}
         else:
             case["faults"] = acct.rand_faults(rng, ps, n_inc, ("line", "trafo"), nmax=3)
         cases.append(case)
